@@ -525,6 +525,17 @@ impl<D: StorageData> Storage<D> {
             ));
         }
 
+        if (self.len() - STORAGE_RECORD_SIZE) < record.size {
+            return Err(DbError::storage(
+                DbErrorType::OutOfBounds,
+                format!(
+                    "Invalid version record size ({}) exceeds storage size ({})",
+                    record.size,
+                    self.len()
+                ),
+            ));
+        }
+
         let bytes = self.read_value(record)?.to_vec();
         u64::deserialize(&bytes)
     }
